@@ -391,6 +391,8 @@ fn main() {
                 let fix = f[4] == "1";
                 let mut bytes = unhex(f[5]);
                 let star = bytes.iter().rposition(|b| *b == b'*');
+                // the checksummed body of the template starts behind its tag block, if it has one
+                let b0 = if bytes.first() == Some(&b'\\') { bytes[1..].iter().position(|b| *b == b'\\').map(|j| j + 3).unwrap_or(1) } else { 1 };
                 let (mut h1, mut h2): (u32, u32) = (2166136261, 0x9747b28c);
                 let mut t = String::with_capacity(4096);
                 for y in 0..=255u8 {
@@ -398,8 +400,8 @@ fn main() {
                         bytes[p1] = y; bytes[p2] = z;
                         if fix {
                             if let Some(s) = star {
-                                if s + 2 < bytes.len() && s >= 1 {
-                                    let x = bytes[1..s].iter().fold(0u8, |a, b| a ^ b);
+                                if s + 2 < bytes.len() && s >= b0 {
+                                    let x = bytes[b0..s].iter().fold(0u8, |a, b| a ^ b);
                                     bytes[s + 1] = b"0123456789ABCDEF"[(x >> 4) as usize];
                                     bytes[s + 2] = b"0123456789ABCDEF"[(x & 15) as usize];
                                 }
